@@ -97,7 +97,7 @@ def mdft_rules(run, db):
                           '(normx normy)^2 == 1/(n0 Q0 n1 Q1)', 'normalisation^2 = %s, expected %s' % ((prod * prod).key(), want.key()), f.loc())
 
 
-def czt_rules(run, db):
+def _czt_rules_reading(run, db):
     f = db.func(FT + 'ChirpZTransformExecutor.czt2')
     for par in parity_classes(['n0', 'n1', 'M0', 'M1']):
         it, dom = K.mk(db, par)
@@ -181,7 +181,7 @@ def _shift_in(dom, vec, shiftv):
     return name in txt
 
 
-def iczt_rule(run, db):
+def _iczt_rule_reading(run, db):
     f = db.func(FT + 'ChirpZTransformExecutor.iczt2')
     it, dom = K.mk(db, {})
     mk = K.executor(db, it, 'ChirpZTransformExecutor')
@@ -429,6 +429,28 @@ def dispatch_rules(run, db):
                       'engines receive different arguments: mdft %s vs czt %s' % (a, b), f.loc())
 
 
+def czt_rules(run, db):
+    """the reading of czt2 as pre-chirp, FFT, filter, inverse FFT, crop, post-chirp; defers to the decision on values (c01values) when the
+    executor is organised in a way it does not read"""
+    from .c01values import defer_to_routes
+    try:
+        return _czt_rules_reading(run, db)
+    except AnalysisError as e:
+        if not defer_to_routes(run, db, 'czt_rules', e, (('C01.chirp', 16 * 4 * 2 * 8), ('C01.axis', 8))):
+            raise
+
+
+def iczt_rule(run, db):
+    from .c01values import defer_to_routes
+    try:
+        return _iczt_rule_reading(run, db)
+    except (AnalysisError, IndexError) as e:
+        if not defer_to_routes(run, db, 'iczt_rule', e, (('C01.conj', 4),)):
+            if isinstance(e, IndexError):
+                raise AnalysisError('iczt2: the pre-chirp multiplies of the forward transform are not found')
+            raise
+
+
 def check(run, db, tier):
     run.trust('KERNEL domain: coordinate vectors as expressions in index atoms; np.outer/np.exp/broadcast multiplies/piecewise stores modelled symbolically (sa/domains/kernel.py)',
               'textbook kernel exp(-/+ 2 pi i x u/(N Q)) per axis with x = i - N//2, u = t - M//2 - shift; Bluestein identity 2xu = x^2 + u^2 - (u-x)^2',
@@ -444,6 +466,10 @@ def check(run, db, tier):
     run.rule('C01.cache', 'memo keys are complete (arguments, direction, precision), memos are filled/cleared together and never mutated in place')
     run.rule('C01.origin', 'FFT route: centred in => centred out with no phase ramp, odd and even lengths')
     run.rule('C01.dispatch', "both method strings reach their engine with identical arguments")
+    run.rule('C01.route', 'chirp-Z == matrix DFT cell by cell on small concrete arrays of symbolic samples (forward and inverse, real and complex, symbolic Q, per-axis Q; '
+             'equal in modulus under a shift): the identity of Bluestein as a polynomial identity')
+    from .c01values import route_value_rules
+    run.group(route_value_rules, run, db)
     run.group(cache_rules, run, db)
     run.group(fresh_rules, run, db)
     run.group(mdft_rules, run, db)
